@@ -103,8 +103,8 @@ Realise(mbx) ==
     [i \in DOMAIN mbx |->
         LET t == Palette[mbx[i][1]] IN
         [seq |-> i, uid |-> mbx[i][2], flags |-> t.flags, size |-> t.size,
-         iday |-> t.its[1], sday |-> t.sent[1], hdrs |-> t.hdrs, body |-> t.body]]
-FMbs == [i \in DOMAIN MailboxSeq |-> FoldMb(Realise(MailboxSeq[i]))]
+         iday |-> t.its[1], sday |-> t.sent[1], hdrs |-> t.hdrs, body |-> t.body,
+         memo |-> NoMemo]]
 
 ---------------------------------------------------------------------------
 (* programs *)
@@ -133,6 +133,8 @@ OddSetLeaves == {<<"SEQ", Set1(3, 2)>>, <<"SEQ", Set1(Star, 1)>>,
                  <<"UID", Set1(5, 3)>>, <<"UID", Set1(Star, 2)>>, <<"UID", Set1(9, Star)>>}
 Leaves == Nullary \cup KwLeaves \cup DateLeaves \cup SizeLeaves \cup StrLeaves
           \cup SetLeaves \cup OddSetLeaves
+
+FMbs == [i \in DOMAIN MailboxSeq |-> MemoMb(FoldMb(Realise(MailboxSeq[i])), StrLeaves)]
 
 Core == {<<"SEEN">>, <<"DELETED">>, <<"NEW">>, <<"SINCE", D>>, <<"SENTON", D>>,
          <<"LARGER", 700>>, <<"SUBJECT", "qzsub">>, <<"SEQ", Set1(1, 1)>>,
